@@ -137,7 +137,9 @@ def match_finding(findings, pid, check, sig):
     for f in findings:
         if f.get("status") != "open":
             continue
-        if pid not in f.get("properties", []):
+        # "properties": the finding is a defect against these (their checks reproduce it on every run);
+        # "tolerated_in": other checks whose generated runs can hit the same defect and must not report it as theirs
+        if pid not in f.get("properties", []) and pid not in f.get("tolerated_in", []):
             continue
         alts = f.get("matcher", {})
         alts = alts if isinstance(alts, list) else [alts]
